@@ -271,15 +271,33 @@ def verify_digest(public_pair, digest_int, sig):
 
 # ---------------------------------------------------------------- traces: seeded requests on one transaction object
 
+class Session(object):
+    """The long-lived objects of one script evaluation / one validation run: ONE transaction
+    object, ONE SolutionChecker and ONE sighash closure per (signature version, input), each
+    created the first time it is needed and then reused for every later request - as the VM
+    does with vm.signature_for_hash_type_f while it evaluates a script with several
+    signature checks."""
+
+    def __init__(self, tx):
+        self.tx = tx
+        self.checker = tx.SolutionChecker(tx)
+        self.closures = {}
+
+    def ask(self, sv, i, script, begin, sigs, ht):
+        k = (sv, i)
+        if k not in self.closures:
+            mk = self.checker._make_sighash_f if sv == "base" else self.checker._make_witness_sighash_f
+            self.closures[k] = mk(i)
+        return _call(self.closures[k], ht, [bytes(x) for x in sigs], FakeVM(bytes(script), begin))
+
+
 def run_trace(coin, tx, requests):
-    """requests: [(sv, i, script, begin, sigs, ht)].  One checker for the whole trace.
-    Returns the events {r, raised, res, after} (res = 32 digest bytes as a list)."""
-    checker = tx.SolutionChecker(tx)
+    """requests: [(sv, i, script, begin, sigs, ht)].  One Session (checker + closures) for the
+    whole trace.  Returns the events {r, raised, res, after} (res = 32 digest bytes as a list)."""
+    session = Session(tx)
     evs = []
     for sv, i, script, begin, sigs, ht in requests:
-        vm = FakeVM(bytes(script), begin)
-        f = checker._make_sighash_f(i) if sv == "base" else checker._make_witness_sighash_f(i)
-        o = _call(f, ht, [bytes(s) for s in sigs], vm)
+        o = session.ask(sv, i, script, begin, sigs, ht)
         ev_ = {"r": request_json(coin, sv, i, script, begin, sigs, ht),
                "raised": 1 if o[0] == "raised" else 0,
                "res": _b(o[1].to_bytes(32, "big")) if o[0] == "digest" and 0 <= o[1] < (1 << 256) else [],
